@@ -145,6 +145,9 @@ def run(ctx):
         if 'CORRUPTED' in acc or 'CORRUPTED' not in rej:
             ctx.violation(dict(kind='spec', what='corrupted solver-history trace accepted'))
         ctx.sample(dict(kind='trace', events=traces[0]['events'][:8]))
+    # code -> spec, call level: the recorded right-hand-side calls must be a behaviour of Solver.tla (history term per call)
+    from .. import solvertrace
+    solvertrace.check(ctx, 'C10', cases, sc.KNOWN_DEVS, sc.FINDING_OF, cap=150 if tier == 'quick' else 1500)
     # (c) function level
     c = tlc.cfg(constants={}, invariants=['Export'])
     r = tlc.run_tlc('Jacobian', c, workers=8, defs=dict(Models='ModelSet({8, 9, 10, 12, 17, 18}, {3, 8, 13, 18}, {5, 10, 17}, {12, 16})'))
